@@ -200,14 +200,19 @@ type ttxHeaderFlags struct {
 }
 
 func ttxHeader(page int, f ttxHeaderFlags) (p [40]byte) {
+	return ttxHeaderNibbles(page/10, page%10, f)
+}
+
+// ttxHeaderNibbles takes the page tens and units as transmitted (hexadecimal digits allowed: data pages)
+func ttxHeaderNibbles(tens, units int, f ttxHeaderFlags) (p [40]byte) {
 	b := func(v bool, s uint) byte {
 		if v {
 			return 1 << s
 		}
 		return 0
 	}
-	p[0] = ham84(byte(page % 10))
-	p[1] = ham84(byte(page / 10))
+	p[0] = ham84(byte(units))
+	p[1] = ham84(byte(tens))
 	p[2] = ham84(0)
 	p[3] = ham84(b(f.erase, 3))
 	p[4] = ham84(0)
